@@ -328,6 +328,26 @@ let () =
         let o = num "o" and len = num "len" in
         let l = iota len (fun k -> 1000 + o + k) and l3 = iota 3 (fun k -> 1000 + o + k) in
         Printf.sprintf "rv=%s rv3=%s n=%d" (join_i (List.rev l)) (join_i (List.rev l3)) len, ""
+    | "seq" | "p8meq" ->
+        (* operator== with the two sides of different extents / index types: exact comparison (Z) *)
+        let ea = ext_of p e and eb = zs (str "E2") and s2 = zs (str "S2") in
+        if op = "p8meq" then begin
+          let l = lay_of (str "lay") in
+          let ab = c14_mapping_eqb (mk l ea []) (mk l eb []) and ba = c14_mapping_eqb (mk l eb []) (mk l ea []) in
+          Printf.sprintf "ea=%s eb=%s ab=%s ba=%s ne=%s" (join ea) (join eb) (b01 ab) (b01 ba) (b01 (not ab)), ""
+        end else begin
+          let a = mk C14_Stride ea s and b = mk C14_Stride eb s2 in
+          let bl = mk C14_Left eb [] and br = mk C14_Right eb [] in
+          let st m = if m.c14_ext = [] then "-" else join (c14_strides_of m) in
+          let t = String.sub inst 0 1 in
+          let bits, sg = (match t with "i" -> 32, true | "u" -> 32, false | "l" -> 64, true | "s" -> 16, true | "c" -> 8, true | _ -> 64, false) in
+          Printf.sprintf "ea=%s sa=%s eb=%s sb=%s sl=%s sr=%s xab=%s xba=%s sab=%s sba=%s sal=%s sar=%s"
+            (join ea) (st a) (join eb) (st b) (st bl) (st br) (b01 (c14_extents_eqb ea eb)) (b01 (c14_extents_eqb eb ea))
+            (b01 (c14_mapping_eqb_cross a b)) (b01 (c14_mapping_eqb_cross b a)) (b01 (c14_mapping_eqb_cross a bl)) (b01 (c14_mapping_eqb_cross a br)),
+          (* the comparison as the header writes it (right-hand strides narrowed to a's index_type) *)
+          Printf.sprintf "W=%s Wl=%s Wr=%s" (b01 (c14_mapping_eqb_cross_w (z_of_int bits) sg a b))
+            (b01 (c14_mapping_eqb_cross_w (z_of_int bits) sg a bl)) (b01 (c14_mapping_eqb_cross_w (z_of_int bits) sg a br))
+        end
     | "p4eq" ->
         let e = ext_of p e in
         let m = mk (lay_of (str "lay")) e [] in
